@@ -40,10 +40,11 @@ DECIDING = {
     "optional_lookups": "optional lookups (must be immediate)",
     "outside_lookups": "lookups outside component startup (must fail immediately)",
     "wait_steps_timed": "wait steps compared with the exact schedule",
+    "timed_waits_abandoned": "waits given up by the component (cancelled while blocked) before the publication",
 }
 ASSUMPTIONS = ["dependencies are acyclic by construction; a waiter whose resource is never published is not generated (C07 covers the timeout)"]
 
-OWNED_PREFIXES = ("wait-", "start-deadlock", "start-timeout")
+OWNED_PREFIXES = ("wait-", "start-deadlock", "start-timeout", "start-raised", "start-crash")
 
 
 def plan(tier: str) -> dict[str, Any]:
